@@ -7,6 +7,10 @@ CXX  := g++
 ifeq ($(SAN),asan)
 SANFLAGS := -fsanitize=address,undefined -fno-sanitize=vptr -fno-omit-frame-pointer -fno-sanitize-recover=undefined
 OPT := -O1
+else ifeq ($(SAN),cov)
+# line/function coverage of /repo's sources under the simulator (development aid: which library code no lane reaches)
+SANFLAGS := --coverage -DNIXSIM_COV
+OPT := -O0
 else
 SANFLAGS :=
 OPT := -O1
